@@ -234,6 +234,23 @@ func c09Bls(c *kc.Ctx, sd *blsSide, rng *kc.Rng, b *blsBatch, iters int) {
 				c.Nontrivial(fmt.Sprintf("%s|verify|%s|%s|%x|%x", sd.name, vc.tag, kc.HexN(vc.xk), vc.m.m, vc.sig))
 			}
 		}
+		// the caller's message buffer is reused: verify m, overwrite the same slice with another message of
+		// the same length, verify again with the signature on m ("fails for any other message")
+		if len(mm.m) > 0 {
+			buf := append([]byte{}, mm.m...)
+			other := append([]byte{}, mm.m...)
+			other[rng.Intn(len(other))] ^= byte(1 + rng.Intn(255))
+			sd.msg(other, false, rng)
+			Xh := blsMulBase(sd.keyG, q, x)
+			v1 := kc.Recover(func() string { return blsErrStr(sd.bls.Verify(Xh, buf, sig)) })
+			copy(buf, other)
+			v2 := kc.Recover(func() string { return blsErrStr(sd.bls.Verify(Xh, buf, sig)) })
+			c.Eval(2)
+			if v1 != "true" || v2 != "false" {
+				blsViolation(c, "bls.Verify/reused-message-buffer", fmt.Sprintf("%s: Verify(m)=%s, then Verify of another message written into the same buffer = %s", sd.name, v1, v2),
+					map[string]string{"side": sd.name, "x": kc.HexN(x), "msg": kc.HexB(mm.m), "other": kc.HexB(other), "sig": kc.HexB(sig)})
+			}
+		}
 		if it < 2 {
 			c.Sample(map[string]string{"side": sd.name, "kind": "bls", "x": kc.HexN(x), "msg": kc.HexB(mm.m), "sig": kc.HexB(sig)})
 		}
